@@ -25,6 +25,83 @@ def _canon(name: bytes) -> bytes:
     return b"-".join(w.capitalize() for w in name.split(b"-"))
 
 
+def _show_h(hs):
+    if hs is None:
+        return "-"
+    return "{" + ";".join(n.hex() + "=" + ",".join(v.hex() for v in vs) for n, vs in hs) + "}"
+
+
+def impl_multi(case) -> str:
+    """2-3 redirect chains in flight through ONE agent object; the wrapped agent's Deferreds are fired in the order
+    given by case['sched'] (['start', i] / ['answer', i])"""
+    from twisted.internet.defer import Deferred
+    from twisted.web import client
+    from twisted.web._newclient import Response
+    from twisted.web.http_headers import Headers
+
+    chains = case["chains"]
+    n = len(chains)
+    issued = [[] for _ in range(n)]
+    pending = [None] * n
+    scripts = [list(c["resps"]) for c in chains]
+    outs = [[] for _ in range(n)]
+    cur = {"i": None}
+
+    class FakeAgent:
+        def request(self, method, uri, headers=None, bodyProducer=None):
+            i = cur["i"]
+            hs = None if headers is None else [(nm, list(vs)) for nm, vs in headers.getAllRawHeaders()]
+            issued[i].append((method, uri, hs))
+            pending[i] = Deferred()
+            return pending[i]
+
+    cls = client.BrowserLikeRedirectAgent if case["browser"] else client.RedirectAgent
+    agent = cls(FakeAgent(), redirectLimit=case["limit"], sensitiveHeaderNames=[H(x) for x in case["extra_sensitive"]])
+
+    def ok(i, resp):
+        k = 0
+        r = resp
+        while getattr(r, "previousResponse", None) is not None:
+            k += 1
+            r = r.previousResponse
+        outs[i].append(f"final:{resp.code}/{k}")
+
+    def err(i, f):
+        if f.check(client.ResponseFailed) and len(f.value.reasons) == 1:
+            outs[i].append(f"err:{f.value.reasons[0].type.__name__}:{f.value.response.code}")
+        else:
+            outs[i].append("err?" + f.type.__name__)
+
+    for step, i in case["sched"]:
+        cur["i"] = i
+        c = chains[i]
+        if step == "start":
+            headers = None
+            if c["headers"] is not None:
+                headers = Headers()
+                for nm, vs in c["headers"]:
+                    headers.setRawHeaders(H(nm), [H(v) for v in vs])
+            d = agent.request(H(c["method"]), H(c["uri"]), headers)
+            d.addCallbacks(lambda r, i=i: ok(i, r), lambda f, i=i: err(i, f))
+        else:
+            d, pending[i] = pending[i], None
+            if d is None or not scripts[i]:
+                pending[i] = d
+                continue
+            code, locs = scripts[i].pop(0)
+            rh = Headers()
+            if locs:
+                rh.setRawHeaders(b"location", [H(x) for x in locs])
+            d.callback(Response((b"HTTP", 1, 1), code, b"OK", rh, None))
+    parts = []
+    for i in range(n):
+        if len(outs[i]) > 1:
+            return "fired-twice"
+        parts.append(" ".join(f"{m.hex()}:{u.hex()}:{_show_h(hs)}" for m, u, hs in issued[i]) + "|"
+                     + (outs[i][0] if outs[i] else "waiting"))
+    return " ## ".join(parts)
+
+
 def impl(case) -> str:
     from twisted.internet.defer import Deferred, succeed
     from twisted.web import client
@@ -36,6 +113,8 @@ def impl(case) -> str:
         u = client.URI.fromBytes(j)
         return f"{j.hex()}|{u.scheme.hex()},{u.host.hex()},{u.port}"
 
+    if case["kind"] == "multi":
+        return impl_multi(case)
     issued = []
     script = list(case["resps"])
 
@@ -132,7 +211,27 @@ def parse_obs(obs):
     return reqs, out
 
 
+def answers(case, i):
+    """how many responses chain i has been given by the schedule"""
+    return sum(1 for st, j in case["sched"] if st == "answer" and j == i)
+
+
 def oracle(case, obs):
+    if case["kind"] == "multi":
+        if obs == "fired-twice":
+            return Failure(case, "a chain's Deferred fired twice", "driver")
+        parts = obs.split(" ## ")
+        if len(parts) != len(case["chains"]):
+            return Failure(case, "driver anomaly: " + obs[:100], "driver")
+        for i, (c, part) in enumerate(zip(case["chains"], parts)):
+            sub = {"kind": "chain", "browser": case["browser"], "limit": case["limit"],
+                   "extra_sensitive": case["extra_sensitive"], "method": c["method"], "uri": c["uri"],
+                   "headers": c["headers"], "resps": c["resps"][:answers(case, i)]}
+            f = oracle(sub, part)
+            if f is not None:
+                return Failure(case, f"chain {i} of {len(parts)} in flight through one agent: " + f.reason,
+                               "concurrent-" + f.tag)
+        return None
     if case["kind"] == "join":
         j = H(obs.split("|")[0])
         want = ref_join(H(case["base"]), H(case["ref"]))
@@ -303,9 +402,66 @@ def _chain(rng, nmax=8):
             "resps": resps}
 
 
+def _interleave(rng, chains):
+    """a random schedule: every chain is started, then answered as often as its script is long, in any interleaving
+    (a chain's first answer comes after its start)"""
+    tokens = []
+    for i, c in enumerate(chains):
+        tokens.append([["start", i]] + [["answer", i]] * (len(c["resps"]) + rng.choice([0, 0, 1])))
+    sched = []
+    while any(tokens):
+        i = rng.choice([k for k, t in enumerate(tokens) if t])
+        sched.append(tokens[i].pop(0))
+    return sched
+
+
+def _multi(rng, nchains=None):
+    base = _chain(rng, nmax=4)
+    chains = []
+    for _ in range(nchains or rng.choice([2, 2, 3])):
+        c = _chain(rng, nmax=4)
+        chains.append({k: c[k] for k in ("method", "uri", "headers", "resps")})
+    return {"kind": "multi", "browser": base["browser"], "limit": rng.choice([20, 20, 2, 1]),
+            "extra_sensitive": base["extra_sensitive"], "chains": chains, "sched": _interleave(rng, chains)}
+
+
+def _cross_talk_block(rng, tier):
+    """chain 0 to origin A with credentials, chain 1 to origin B started through the same agent before chain 0 is
+    answered, chain 0 then redirected to B (and variants: three chains, relative redirects, every order of answers)"""
+    out = []
+    creds = [[b"Authorization".hex(), [b"Basic abc".hex()]], [b"Cookie".hex(), [b"a=1".hex()]],
+             [b"Proxy-Authorization".hex(), [b"p".hex()]], [b"X-Token".hex(), [b"t".hex()]],
+             [b"Accept".hex(), [b"*/*".hex()]]]
+    A, B, C = b"http://a.example/p/q", b"http://b.example/x/y", b"https://a.example/s"
+    for browser in (False, True):
+        for code in (301, 302, 303, 307, 308):
+            for target in (B + b"/z", b"//b.example/n", C, b"/same/origin", b"http://b.example:8080/"):
+                chain0 = {"method": b"GET".hex(), "uri": A.hex(), "headers": creds,
+                          "resps": [[code, [target.hex()]], [200, []]]}
+                chain1 = {"method": b"GET".hex(), "uri": B.hex(), "headers": [[b"Cookie".hex(), [b"b=2".hex()]]],
+                          "resps": [[200, []]]}
+                chain2 = {"method": b"HEAD".hex(), "uri": C.hex(), "headers": None, "resps": [[302, [b"/t".hex()]], [204, []]]}
+                for chains in ([chain0, chain1], [chain1, chain0], [chain0, chain1, chain2]):
+                    i0 = chains.index(chain0)
+                    scheds = [
+                        [["start", k] for k in range(len(chains))] + [["answer", i0], ["answer", i0]]
+                        + [["answer", k] for k in range(len(chains)) if k != i0],
+                        [["start", i0]] + [["start", k] for k in range(len(chains)) if k != i0]
+                        + [["answer", k] for k in range(len(chains)) if k != i0] + [["answer", i0], ["answer", i0]],
+                    ]
+                    if tier != "quick":
+                        scheds += [_interleave(rng, chains) for _ in range(3)]
+                    for sched in scheds:
+                        out.append({"kind": "multi", "browser": browser, "limit": 20, "extra_sensitive": [b"x-token".hex()],
+                                    "chains": chains, "sched": sched})
+    return out
+
+
 def gen(rng, tier):
     big = tier != "quick"
-    cases = []
+    cases = _cross_talk_block(rng, tier)
+    for _ in range(250 if not big else 8000):
+        cases.append(_multi(rng))
     for _ in range(700 if not big else 30000):
         cases.append(_chain(rng))
     # second hop relative, systematically (the F9 class): every kind of relative reference after a cross-origin hop
@@ -356,7 +512,35 @@ def _modelled_bytes(b: bytes) -> bool:
     return all(c in SAFE for c in b) and b":-" not in b
 
 
+def _cfg(case):
+    rcodes, scodes = R_CODES[case["browser"]]
+    sens = [_canon(H(x)) for x in case["extra_sensitive"]]
+    return (f"(mkConfig {coq_list((coq_N(c) for c in rcodes), 'N')} {coq_list((coq_N(c) for c in scodes), 'N')} "
+            f"{coq_N(case['limit'])} ({coq_list((coq_bytes(s) for s in sens), '(list N)')} ++ default_sensitive))")
+
+
+def _coq_headers(hs):
+    if hs is None:
+        return "(@None headers)"
+    return "(Some " + coq_list((f"({coq_bytes(H(n))}, {coq_list((coq_bytes(H(v)) for v in vs), '(list N)')})"
+                                for n, vs in hs), "(list N * list (list N))%type") + ")"
+
+
+def _coq_resps(resps):
+    return coq_list((f"(mkResponse {coq_N(c)} {coq_list((coq_bytes(H(x)) for x in locs), '(list N)')})"
+                     for c, locs in resps), "response")
+
+
 def to_coq(case):
+    if case["kind"] == "multi":
+        strs = [H(c["uri"]) for c in case["chains"]] + [H(x) for c in case["chains"] for _, locs in c["resps"] for x in locs]
+        if not all(_modelled_bytes(s) for s in strs):
+            return None
+        chains = coq_list((f"({coq_bytes(H(c['method']))}, {coq_bytes(H(c['uri']))}, {_coq_headers(c['headers'])}, "
+                           f"{_coq_resps(c['resps'])})" for c in case["chains"]),
+                          "(list N * list N * option headers * list response)%type")
+        sched = coq_list((f"{j}%nat" for st, j in case["sched"] if st == "answer"), "nat")
+        return f"(CMulti {_cfg(case)} {chains} {sched})"
     if case["kind"] == "join":
         b, r = H(case["base"]), H(case["ref"])
         if not (_modelled_bytes(b) and _modelled_bytes(r)):
@@ -380,6 +564,19 @@ def to_coq(case):
 
 
 def shrink(case):
+    if case["kind"] == "multi":
+        cs = case["chains"]
+        if len(cs) > 2:
+            for i in range(len(cs)):
+                keep = [k for k in range(len(cs)) if k != i]
+                ren = {k: j for j, k in enumerate(keep)}
+                yield {**case, "chains": [cs[k] for k in keep],
+                       "sched": [[st, ren[j]] for st, j in case["sched"] if j != i]}
+        for i, c in enumerate(cs):
+            if c["headers"]:
+                for h in range(len(c["headers"])):
+                    yield {**case, "chains": cs[:i] + [{**c, "headers": c["headers"][:h] + c["headers"][h + 1:]}] + cs[i + 1:]}
+        return
     if case["kind"] == "join":
         for k in ("base", "ref"):
             b = H(case[k])
@@ -403,6 +600,8 @@ def shrink(case):
 
 
 def histogram(case, obs):
+    if case["kind"] == "multi":
+        return f"multi:{len(case['chains'])}-chains"
     if case["kind"] == "join":
         return "join"
     n = obs.count(" ")
@@ -415,7 +614,7 @@ SPEC = Spec(
     coq_header="From TwLib Require Import Uri.\nFrom C27 Require Import Model Run.",
     coq_fn="run_show",
     to_coq=to_coq,
-    nontrivial=lambda c, o: c["kind"] == "join" or " " in o,
+    nontrivial=lambda c, o: c["kind"] in ("join", "multi") or " " in o,
     histogram=histogram,
     rule="random redirect chains of 0-8 hops (301/302/303/307/308, then a final 200/204/300/304/404 or none) over "
          "9 authorities (same host with default/explicit/other port, other case, userinfo, malformed port) x "
